@@ -3,6 +3,7 @@ import SLModel.Lemmas.PlanLeaf
 import SLModel.Lemmas.Script
 import SLModel.Core.Msm
 import SLModel.Lemmas.RescoreDrop
+import SLModel.Lemmas.HistFill
 /-!
 # C16 — search never panics on any request   (claimed level: **partial**)
 
@@ -45,6 +46,11 @@ panic, exactly when it does:
   rescore query rejects never calls `Vec::remove` out of range and keeps exactly the other hits,
   for every collection order of the rejected indices (`rescore_drop_order_irrelevant`);
   `unsorted_removal_breaks` shows what the sort protects against.
+* **histogram fill** (`Core/HistFill`): `hist_fill_total` / `hist_fill_never_overflows` — the
+  numeric bucket fill with the `== end` break ends within `end − start + 1` steps and never
+  overflows for every pair of `i64` ends; `date_fill_terminates` — with a step of at least
+  1 ms (`dateStepOk`) the date fill leaves within `end − start + 1` iterations; legacy:
+  `legacy_zero_step_never_ends`, `hist_fill_witnesses`.
 * **minimum_should_match** (`Core/Msm`): the `&pct[..len-1]` slice is always on a char
   boundary (`msm_no_panic`), the result never exceeds the term count (`msm_le_termCount`).
 
@@ -698,6 +704,81 @@ theorem unsorted_removal_breaks :
 
 /-- non-vacuity: three of five window hits rejected, collected in segment order -/
 example : SL.RescoreDrop.dropRejected [1, 2, 3, 4, 5] [3, 0, 3, 1] = some [3, 5] := by decide
+
+
+/-! ## histogram / date_histogram: the bucket fill between the bounds -/
+
+section HistFillS
+open SL.HistFill
+
+theorem fill_fuel_mono_add (m n : Nat) (cur stop : Int) (acc : List Int) (r : Out)
+    (h : fill n cur stop acc = some r) : fill (n + m) cur stop acc = some r := by
+  induction m with
+  | zero => exact h
+  | succ m ih => exact fill_fuel_mono (n + m) cur stop acc r ih
+
+/-- **the numeric fill (with the `== end` break) terminates within `end − start + 1` steps and
+never overflows**, for every pair of `i64` ends — including `end = i64::MAX`, where the ends
+of bounds beyond the `i64` range saturate to -/
+theorem hist_fill_total (start stop : Int) (hstop : stop ≤ i64Max) :
+    fill ((stop - start).toNat + 1) start stop [] =
+      some (.done (if start ≤ stop then keysFrom start ((stop - start).toNat + 1) else [])) := by
+  by_cases h : start ≤ stop
+  · have := fill_spec (stop - start).toNat start stop [] hstop (by omega)
+    simpa [h] using this
+  · have h0 : (stop - start).toNat = 0 := by omega
+    simp [h0, fill, h]
+
+/-- whatever the fuel, a result of the repaired loop is `done` with exactly those keys: the
+`bucket_id += 1` overflow cannot happen -/
+theorem hist_fill_never_overflows (n : Nat) (start stop : Int) (hstop : stop ≤ i64Max) (r : Out)
+    (h : fill n start stop [] = some r) :
+    r = .done (if start ≤ stop then keysFrom start ((stop - start).toNat + 1) else []) := by
+  have hs := hist_fill_total start stop hstop
+  generalize hN : (stop - start).toNat + 1 = N at hs
+  have h1 := fill_fuel_mono_add N n start stop [] r h
+  have h2 := fill_fuel_mono_add n N start stop [] _ hs
+  rw [Nat.add_comm] at h2
+  rw [h1] at h2
+  exact Option.some.inj h2
+
+/-- the number of insertions is `end − start + 1` (0 when the ends are reversed) -/
+theorem hist_fill_count (start stop : Int) (h : start ≤ stop) :
+    (keysFrom start ((stop - start).toNat + 1)).length = (stop - start + 1).toNat := by
+  rw [keysFrom_length]
+  omega
+
+/-- **date fill**: once validation guarantees a step of at least one millisecond
+(`dateStepOk`), the loop leaves — past `end`, or at the `checked_add` overflow — within
+`end − start + 1` iterations, for every pair of ends -/
+theorem date_fill_terminates (step start stop : Int) (hs : dateStepOk step = true) :
+    ∃ r, dateFill step ((stop - start).toNat + 2) start stop 0 = some r := by
+  have h1 : 1 ≤ step := by simpa [dateStepOk] using hs
+  exact dateFill_terminates step h1 ((stop - start).toNat + 1) start stop 0 (by omega)
+
+/-- LEGACY (before the repair; validation accepted every parsable `fixed_interval`): a step
+of 0 ms — `"0s"`, `"0.0001ms"`, anything below a millisecond truncates to 0 — never advances:
+no amount of fuel ends the loop -/
+theorem legacy_zero_step_never_ends (n : Nat) (start stop : Int) (h : start ≤ stop) (hi : inI64 start = true) :
+    dateFill 0 n start stop 0 = none :=
+  dateFill_zero_never n start stop 0 h hi
+
+end HistFillS
+
+/-- LEGACY NEGATIVE WITNESSES (decide): bounds `{min: 1e300, max: 1e300}` saturate both ends
+to `i64::MAX` — the loop without the break overflows after its first insertion, the loop
+with the break is done; a step of 0 ms is refused by `dateStepOk` and spins (bounds
+`"0".."10000"`, fuel 50), a step of 1 ms ends -/
+theorem hist_fill_witnesses :
+    SL.HistFill.legacyFill 3 SL.HistFill.i64Max SL.HistFill.i64Max [] = some (.overflow [SL.HistFill.i64Max]) ∧
+    SL.HistFill.fill 3 SL.HistFill.i64Max SL.HistFill.i64Max [] = some (.done [SL.HistFill.i64Max]) ∧
+    SL.HistFill.legacyFill 4 (SL.HistFill.i64Max - 1) SL.HistFill.i64Max [] =
+      some (.overflow [SL.HistFill.i64Max - 1, SL.HistFill.i64Max]) ∧
+    SL.HistFill.dateStepOk 0 = false ∧
+    SL.HistFill.dateFill 0 50 0 10000 0 = none ∧
+    SL.HistFill.dateFill 1 50 0 10 0 = some (.past 11) ∧
+    SL.HistFill.dateFill 5 50 (SL.HistFill.i64Max - 7) SL.HistFill.i64Max 0 = some (.addOverflow 2) := by
+  decide
 
 /-! ## minimum_should_match -/
 
